@@ -1,10 +1,11 @@
 from ..framework import Spec
 from ..ties_config import validate_tie, gate_tie, require_tie
 
-SPEC = Spec(pid='C19', coq_needs=['Base', 'Layout', 'Config', 'ConfigProofs', 'Properties/C19'],
+SPEC = Spec(pid='C19', coq_needs=['Base', 'Layout', 'Config', 'ConfigProofs', 'ConfigTree', 'Properties/C19'],
             ties=[validate_tie(), gate_tie(), require_tie()],
-            trusted_extra=['harness/ties_config.py abstract(): the abstraction of a YAML definition to Config.vcfg '
-                           '(which sections/keys exist, names, counts, list lengths, register references, ranges, zones)',
+            trusted_extra=['harness/ties_config.py tree_term(): the YAML document as loaded, rendered as a Coq tree (ConfigTree.yv); which '
+                           'keys exist, which variants and operand configurations are built and what they refer to is decided by the model '
+                           '(ConfigTree.abstract_doc)',
                            'version text is read by the model itself (Config.parse_version) for the subset N(.N)*((a|b|rc)N)? of '
                            'PEP 440; epochs, post/dev/local parts and alternative spellings are outside the modelled subset'],
-            partial_note='validation is modelled on an abstraction of the YAML document (harness code extracts it)')
+            partial_note='validation is modelled on the facts ConfigTree.abstract_doc extracts from the loaded YAML tree')
